@@ -7,6 +7,7 @@ functions, for every graph, state, profile, `Ops` instance and every record `r` 
 interface calls available for referenced nodes.  Part 2: meta-theorems (fuel).
 -/
 import CamVerif.Proofs.GenApiLemmas
+import CamVerif.Proofs.C03Fuel
 namespace CamVerif.C03
 open CamVerif CamVerif.GenApi
 
@@ -612,5 +613,109 @@ theorem swissknife_value (cx : Ctx F E) (fuel : Nat) (n : NodeId) (b : Base) (fm
     · simp only [exec, top, intValueF, intMinF, hg]
     · simp only [exec, top, intValueF, intMaxF, hg]
     · cases st; simp [exec, top, intSetF, hg, runM, M.err, St.s]
+
+/-! ## Meta-theorems -/
+
+/-- **fuel_mono**: a request that is answered without running out of fuel (result, final
+value store, device image and log) is answered identically with any larger fuel — the
+answer of `exec` does not depend on the fuel once there is enough of it. -/
+theorem fuel_mono (cx : Ctx F E) (fuel k : Nat) (req : Req F) (st : St F)
+    (h : (exec cx fuel req st).1 ≠ .err .outOfFuel) :
+    exec cx (fuel + k) req st = exec cx fuel req st := by
+  cases fuel with
+  | zero => simp [exec] at h
+  | succ f =>
+    have : f + 1 + k = (f + k) + 1 := by omega
+    rw [this]
+    simp only [exec] at h ⊢
+    exact (top_le (execRec_le cx f k) req st h).symm
+
+/-- consequently two sufficient fuels agree -/
+theorem fuel_irrelevant (cx : Ctx F E) (f1 f2 : Nat) (req : Req F) (st : St F)
+    (h1 : (exec cx f1 req st).1 ≠ .err .outOfFuel) (h2 : (exec cx f2 req st).1 ≠ .err .outOfFuel) :
+    exec cx f1 req st = exec cx f2 req st := by
+  rcases Nat.le_total f1 f2 with h | h
+  · obtain ⟨k, rfl⟩ := Nat.exists_eq_add_of_le h
+    exact (fuel_mono cx f1 k req st h1).symm
+  · obtain ⟨k, rfl⟩ := Nat.exists_eq_add_of_le h
+    exact fuel_mono cx f2 k req st h2
+
+/-! ## Non-vacuity: concrete graph, states and histories exercising the clauses -/
+
+namespace Ex
+def ops : Ops Int Unit where
+  i2f i := i
+  f2i f := f
+  fNonZero f := f != 0
+  fMin := 0
+  fMax := 0
+  intFromSlice bs _ _ := if bs.length = 1 then .ok (fromLE bs) else .err .invalidBuffer
+  bytesFromInt v n _ _ := if n = 1 then .ok (toLE n v.toNat) else .err .invalidBuffer
+  floatFromSlice _ _ := .err .invalidBuffer
+  bytesFromFloat _ _ _ := .err .invalidBuffer
+  strDecode b := b
+  applyMask _ _ v _ _ _ := .ok v
+  maskedValue _ _ _ v _ _ _ := .ok v
+  maskMin _ _ _ _ _ := .ok 0
+  maskMax _ _ _ _ _ := .ok 0
+  exprOfInt _ := ()
+  exprOfFloat _ := ()
+  eval _ _ _ := .err .invalidNode
+
+/-- 0 port · 1 Integer(slot 0) selector · 2 Integer(slot 1) · 3 IntReg @0 len 1 ·
+4 IntReg @ (1 + sel·1) len 1 · 5 Integer pValue 2, copies [3, 4] · 6 Integer pIndex(sel 1):
+0 ↦ slot 2, 1 ↦ node 3, default slot 3 · 7 Enumeration{8 ↦ 0, 9 ↦ 5} over slot 4 ·
+10 Boolean over node 3 (On 1 / Off 0) · 11 Command: value node 3, command value slot 5 -/
+def graph : Graph Int Unit
+  | 0 => some (.port {} false)
+  | 1 => some (.integer {} (.value 0) (.imm 6) (.imm 7) (.imm 1))
+  | 2 => some (.integer {} (.value 1) (.imm 6) (.imm 7) (.imm 1))
+  | 3 => some (.intReg ⟨{}, [.address (.imm 0)], .imm 1, .rw, 0⟩ .unsigned .le)
+  | 4 => some (.intReg ⟨{}, [.address (.imm 1), .pIndex 1 (some (.imm 1))], .imm 1, .rw, 0⟩ .unsigned .le)
+  | 5 => some (.integer {} (.pValue 2 [3, 4]) (.imm 6) (.imm 7) (.imm 1))
+  | 6 => some (.integer {} (.pIndex 1 [(0, .imm 2), (1, .pnode 3)] (.imm 3)) (.imm 6) (.imm 7) (.imm 1))
+  | 7 => some (.enumeration {} [8, 9] (.imm 4))
+  | 8 => some (.enumEntry {} 0 none "Off")
+  | 9 => some (.enumEntry {} 5 none "On")
+  | 10 => some (.boolean {} (.pnode 3) 1 0)
+  | 11 => some (.command {} (.pnode 3) (.imm 5))
+  | _ => none
+
+def cx : Ctx Int Unit := ⟨ops, Profile.dev, graph⟩
+def st : St Int :=
+  ⟨[.int 1, .int 5, .int 20, .int 30, .int 0, .int 1, .int 0, .int 9], ⟨[7, 8, 9, 10], 0, 0⟩, []⟩
+/-- same, but device bytes [2, 3) refuse writes -/
+def stRo : St Int := { st with dev := ⟨[7, 8, 9, 10], 2, 3⟩ }
+end Ex
+
+/-- fan-out: slot of node 2, then register 3 (@0), then register 4 (@1 + 1·1 = 2), same value -/
+example : exec Ex.cx 4 (.intSet 5 9) Ex.st =
+    (.ok .unit, ⟨[.int 1, .int 9, .int 20, .int 30, .int 0, .int 1, .int 0, .int 9],
+                 ⟨[9, 8, 9, 10], 0, 0⟩, [.write 0 [9] true, .write 2 [9] true]⟩) := by rfl
+/-- first error stops the rest: with [2,3) refused the last copy fails, the earlier writes stay -/
+example : exec Ex.cx 4 (.intSet 5 9) Ex.stRo =
+    (.err .device, ⟨[.int 1, .int 9, .int 20, .int 30, .int 0, .int 1, .int 0, .int 9],
+                    ⟨[9, 8, 9, 10], 2, 3⟩, [.write 0 [9] true, .write 2 [9] false]⟩) := by rfl
+/-- pIndex: selector = 1 selects node 3 (device byte 7); address of 4 = 1 + 1·1; length 1 -/
+example : (exec Ex.cx 4 (.intValue 6) Ex.st).1 = .ok (.int 7) ∧
+    (exec Ex.cx 4 (.regAddress 4) Ex.st).1 = .ok (.int 2) ∧
+    (exec Ex.cx 4 (.regLength 4) Ex.st).1 = .ok (.int 1) := by
+  refine ⟨?_, ?_, ?_⟩ <;> rfl
+/-- enumeration: 3 is not declared → refused, nothing touched; 5 is declared → stored -/
+example : exec Ex.cx 3 (.enumSetByValue 7 3) Ex.st = (.err .invalidData, Ex.st) ∧
+    (exec Ex.cx 3 (.enumSetByValue 7 5) Ex.st).1 = .ok .unit ∧
+    (exec Ex.cx 3 (.enumCurrentEntry 7) Ex.st).1 = .ok (.node 8) := by
+  refine ⟨?_, ?_, ?_⟩ <;> rfl
+/-- boolean over a register holding 7: neither On (1) nor Off (0) → error; command not done
+after execute (register holds the command value) -/
+example : (exec Ex.cx 4 (.boolValue 10) Ex.st).1 = .err .invalidNode ∧
+    (exec Ex.cx 4 (.cmdIsDone 11) (exec Ex.cx 4 (.cmdExecute 11) Ex.st).2).1 = .ok (.bool false) := by
+  constructor <;> rfl
+/-- the hypothesis of `fuel_mono` holds with fuel 4, and fails with fuel 1 -/
+example : (exec Ex.cx 4 (.intSet 5 9) Ex.st).1 ≠ .err .outOfFuel ∧
+    (exec Ex.cx 1 (.intSet 5 9) Ex.st).1 = .err .outOfFuel := by
+  constructor
+  · intro h; cases h
+  · rfl
 
 end CamVerif.C03
